@@ -4,8 +4,8 @@
 //! simulator can drive a [`Chitchat`] instance step by step, plus a seedable generator for the
 //! equal-staleness shuffle. Nothing in here changes behaviour when the feature is off.
 
-use std::cell::Cell;
-use std::collections::HashSet;
+use std::cell::{Cell, RefCell};
+use std::collections::{HashMap, HashSet};
 use std::net::SocketAddr;
 
 use rand::rngs::StdRng;
@@ -17,6 +17,25 @@ use crate::{Chitchat, ChitchatMessage};
 
 thread_local! {
     static SHUFFLE_SEED: Cell<u64> = const { Cell::new(0) };
+    static DNS_TABLE: RefCell<Option<HashMap<String, Vec<SocketAddr>>>> = const { RefCell::new(None) };
+}
+
+/// Installs (or, with `None`, removes) the name resolution table used on this thread instead of
+/// the system resolver when seed hosts are resolved. A host missing from an installed table fails
+/// to resolve.
+pub fn set_dns_table(table: Option<HashMap<String, Vec<SocketAddr>>>) {
+    DNS_TABLE.with(|cell| *cell.borrow_mut() = table);
+}
+
+/// `None` when no table is installed on this thread (the system resolver is used then).
+pub(crate) fn resolve_host(host: &str) -> Option<std::io::Result<Vec<SocketAddr>>> {
+    DNS_TABLE.with(|cell| {
+        let table = cell.borrow();
+        let table = table.as_ref()?;
+        Some(table.get(host).cloned().ok_or_else(|| {
+            std::io::Error::new(std::io::ErrorKind::NotFound, "simulated lookup failure")
+        }))
+    })
 }
 
 /// Sets the seed used by the next equal-staleness shuffles on this thread.
